@@ -27,7 +27,7 @@ add('C01', ['C01', 'C01W', 'C01N'], 'exploration',
     "Stateless exploration of a real cluster (3-4 real server.Server nodes: shards director, leader/follower controllers, WAL, Pebble on a crash-simulating filesystem; the real coordinator ShardController with a real StatusResource over the memory metadata provider; in-process transports) under the cooperative scheduler: 2 concurrent client writers (two-operation requests, with secondary-index entries) plus one fault per scenario (leader crash, crash+restart, spurious failover, swap of a follower / of the leader, swap with unreachable members, coordinator crash mid-election, lost NewTerm / BecomeLeader answers, the answer of any one coordinator RPC lost (which one is enumerated), a replication connection dropping under any one message (which one is enumerated), BecomeLeader timing out on a partitioned candidate, rolling isolation over four terms, swap + restore from snapshot + the new node leading); every schedule with <=1 (thorough <=2) non-default coarse scheduling choices; every acknowledged write must be present on every node that becomes leader later and on the final leader after healing. WAL sync stage (lib/walh): on a real WAL with SyncData on, an appender, a thread calling Sync and the WAL's own group-sync thread under the cooperative scheduler, the flush of the segment being a scheduling point: the offset reported as synced, and every completed sync (what a follower acknowledges, what a leader counts as stored), is covered by a flush that started after the entry was appended.",
     "DESIGN.md §2.5, §3 C01", CLUSTER_NOTE, T_SCHED + " over real servers and coordinator with crash/fault injection", 'sched')
 add('C02', ['C02', 'C02S', 'C02P', 'C02N', 'C02L'], 'exploration',
-    "Stage 1: same cluster executions with clients issuing colliding puts and gets; invoke/return stamped by scheduler step; per-key linearizability decided by porcupine (unknown outcomes may take effect once or never); stale reads only from deposed leaders; no read may return a value that is absent from the final committed log. Stage 2: fine-grained schedules of writers colliding on one key on a real RF=3 leader: the state reads are served from equals the fold of the committed log, responses match their requests. Public read path stage (lib/pubrpc): range scans, lists and multi-gets over a fixed family of data sets around the limits of the message cutting (empty values, a value above the byte limit of a message in every position, more records than the count limit, empty tails) sent through the real public RPC handlers over a real leader controller: the messages put together are exactly the sorted reference, each value with its own key, a multi-get answered position by position.",
+    "Stage 1: same cluster executions with clients issuing colliding puts and gets; invoke/return stamped by scheduler step; per-key linearizability decided by porcupine (unknown outcomes may take effect once or never); stale reads only from deposed leaders; no read may return a value that is absent from the final committed log. Stage 2: fine-grained schedules of writers colliding on one key on a real RF=3 leader: the state reads are served from equals the fold of the committed log, responses match their requests; and a get with FLOOR comparison racing with a put and a delete on a real RF=1 leader (the point between the engine's two looks at the database is a hook): the answer must have been the floor at some moment. Public read path stage (lib/pubrpc): range scans, lists and multi-gets over a fixed family of data sets around the limits of the message cutting (empty values, a value above the byte limit of a message in every position, more records than the count limit, empty tails) sent through the real public RPC handlers over a real leader controller: the messages put together are exactly the sorted reference, each value with its own key, a multi-get answered position by position.",
     "DESIGN.md §3 C02", CLUSTER_NOTE, T_SCHED + " + porcupine linearizability checking of every explored history", 'sched')
 add('C03', ['C03', 'C03S', 'C03F', 'C03L'], 'exploration',
     "Stage 1: same cluster executions; at the instant a follower hands Ack(o) to a term-T stream its synced log must equal the term-T leader's log at every offset <= o (shadow logs recorded at the WAL seam); committed prefixes of all replicas are compared with the final leader at the end. Schedule stage on the leader (h/c03s): one election of a real leader controller against two checking followers from a preloaded two-term log (with and without an uncommitted tail; one follower empty and restored from a snapshot, or holding a longer tail of the older term), every schedule of BecomeLeader, follower cursors, snapshot sender and ack receivers up to the deviation bound; the followers check every truncation, append and snapshot and must end with exactly the leader's log. Stage 2: explicit-state search of the follower as a protocol state machine (every sequence of 14 protocol events - new-term requests, appends of current / stale terms, truncation and its re-delivery, complete / interrupted / stale-term snapshot transfers, restart, crash - up to the depth, on a real follower controller): acknowledged entries stay stored with their leader's entry, the database is the fold of what the node holds.",
